@@ -31,6 +31,45 @@ def special_specs(ctx, n):
     return out
 
 
+def offgrid_warm_specs(ctx, n):
+    """a constraint that is a predicate on the parameter VALUES (a half-space a.x > b, also defined between grid points) and
+    warm-start dictionaries whose values lie between two grid points next to the border: feasible as given, but the nearest
+    grid point is not (or the other way round) -- what is evaluated must be feasible, whatever is done with such an entry"""
+    rng = ctx.sub_rng("c02-offgrid")
+    names = [nm for nm in gen.ALL if nm not in gen.SLOW] + ["BayesianOptimizer"]
+    out = []
+    for i in range(n):
+        name = names[i % len(names)]
+        nd = rng.choice([1, 2, 2])
+        step = rng.choice([1.0, 0.5, 2.0])
+        space = {"x%d" % d: np.arange(-6, 7) * step for d in range(nd)}
+        coef = [rng.choice([1.0, -1.0])] + [rng.choice([0.0, 1.0, -1.0]) for _ in range(nd - 1)]
+        bound = rng.choice([-2, -1, 0, 1]) * step
+        allp = gen.all_positions(space)
+        arrs = list(space.values())
+        feas = {p for p in allp if sum(c * float(a[j]) for c, a, j in zip(coef, arrs, p)) > bound}
+        if not feas or len(feas) * 4 < len(allp):
+            continue
+        ws = []
+        for _ in range(rng.choice([1, 2, 3])):
+            # a point next to the border: one grid value on the border (infeasible, strict inequality) nudged inside by < step/2
+            base = [float(rng.choice(a)) for a in arrs]
+            s0 = sum(c * x for c, x in zip(coef[1:], base[1:]))
+            xb = (bound - s0) / coef[0]                      # x0 on the border
+            x0 = xb + coef[0] * rng.choice([0.1, 0.25, 0.4]) * step * rng.choice([1, 1, -1])
+            if not (arrs[0][0] - step / 2 < x0 < arrs[0][-1] + step / 2):
+                continue
+            ws.append({"x0": x0, **{"x%d" % d: base[d] for d in range(1, nd)}})
+        if not ws:
+            continue
+        table, _ = gen.gen_table(rng, space, kind="random")
+        cfg = {"population": rng.choice([1, 2, 4])} if name in gen.POPULATION and name not in ("GeneticAlgorithmOptimizer", "DifferentialEvolutionOptimizer") else {}
+        out.append(dict(name=name, space=space, table=table, feasible=feas, pred=(coef, bound), constraint_desc=("value-halfspace", tuple(coef), bound),
+                        calls=[dict(n_iter=rng.choice([6, 10]), memory=False, verbosity=False)], seed=rng.randrange(10 ** 6),
+                        init={"warm_start": ws, "random": rng.choice([1, 2])}, cfg=cfg, meta=[("float", "asc", 13)] * nd, steps_api=True))
+    return out
+
+
 def coupled_specs(ctx, n):
     """constraints that couple two or more parameters (a coordinate-wise mix of two feasible points can be infeasible),
     long iteration phases, every optimizer that recombines / moves coordinate-wise"""
@@ -98,10 +137,12 @@ def run(ctx):
     ctx.monitor_rule = ("every parameter set handed to the objective satisfies the constraint (half-spaces, parity / band lattices, "
                         "random masks, constraints coupling several parameters with long iteration phases; feasible fraction >= 25%), best_para too; all 22 optimizers, both grid directions, "
                         "DownhillSimplex with fewer inits than dims+1, populations larger than the number of inits, repeated "
-                        "calls; distinct by (optimizer, seed, constraint)")
+                        "calls; value-predicate constraints with warm starts between two grid points next to the border; per optimizer two longer "
+                        "runs with extreme hyper-parameters; distinct by (optimizer, seed, constraint)")
     n_fast, n_slow = (72, 8) if ctx.quick else (540, 60)
     specs = sweep.sweep_specs(ctx, "c02", n_fast, n_slow, constraint=1.0) + special_specs(ctx, 24 if ctx.quick else 160) \
-        + coupled_specs(ctx, 33 if ctx.quick else 220)
+        + coupled_specs(ctx, 33 if ctx.quick else 220) + offgrid_warm_specs(ctx, 36 if ctx.quick else 200) \
+        + [sp_ for sp_ in sweep.extreme_specs(ctx, "c02", constraint=1.0, rounds=(1 if ctx.quick else 4)) if sp_.get("feasible") is not None]
     for spec in specs:
         if spec.get("feasible") is None:
             continue
